@@ -27,12 +27,17 @@ def write_csvs(d, assets):
                 f.write('%s,%s,%s,%s,%s,%s,1000\n' % (date, cell(o), cell(o), cell(o), cell(c), cell(a)))
 
 
-def build(assets, adjust):
+def build(assets, adjust, symbols=None):
     os.makedirs(TMPROOT, exist_ok=True)
     d = tempfile.mkdtemp(prefix='data_', dir=TMPROOT)
     try:
         write_csvs(d, assets)
-        ds = CSVDailyBarDataSource(d, Equity, adjust_prices=adjust)
+        if symbols is not None:
+            # the csv_symbols option: only the named files are loaded; the directory holds another one
+            write_csvs(d, {'ZZZUNRELATED': [[18262, 1.0, 2.0, 2.0]]})
+            ds = CSVDailyBarDataSource(d, Equity, adjust_prices=adjust, csv_symbols=list(symbols))
+        else:
+            ds = CSVDailyBarDataSource(d, Equity, adjust_prices=adjust)
     finally:
         shutil.rmtree(d, ignore_errors=True)
     return ds
@@ -54,7 +59,7 @@ def ask_all(ds, queries, tz=None, universe=None):
 
 
 def handler(c):
-    ds = build(c['assets'], c['adjust'])
+    ds = build(c['assets'], c['adjust'], symbols=c.get('csv_symbols'))
     loaded = {}
     for a in c['assets']:
         df = ds.asset_bar_frames['EQ:' + a]
